@@ -434,6 +434,17 @@ impl Blockchain {
             //         .count()
             // );
 
+            // a reorg attempt that fails part-way may already have wound blocks past the
+            // height of the old tip. remember what the winding overwrites so that it can be
+            // put back if the new chain turns out not to validate.
+            let latest_block_state = (
+                self.last_block_id,
+                self.last_block_hash,
+                self.last_timestamp,
+                self.last_burnfee,
+                self.fork_id,
+            );
+
             let (does_new_chain_validate, wallet_updated) = self
                 .validate(new_chain.as_slice(), old_chain.as_slice(), storage, configs)
                 .await;
@@ -461,6 +472,13 @@ impl Blockchain {
                     block_hash.to_hex()
                 );
                 self.blocks.get_mut(&block_hash).unwrap().in_longest_chain = false;
+                (
+                    self.last_block_id,
+                    self.last_block_hash,
+                    self.last_timestamp,
+                    self.last_burnfee,
+                    self.fork_id,
+                ) = latest_block_state;
                 self.add_block_failure(&block_hash, mempool).await;
                 AddBlockResult::FailedNotValid
             }
